@@ -69,8 +69,14 @@ def do_OP_2SWAP(stack: Any) -> None:
 
 
 def do_OP_IFDUP(stack: Any) -> None:
-    if stack[-1]:
-        stack.append(stack[-1])
+    v = stack[-1]
+    if isinstance(v, bytes):
+        # script boolean: false is any run of zero bytes, possibly ending in 0x80 (negative zero)
+        is_true = any(v[:-1]) or v[-1:] not in (b"", b"\0", b"\x80")
+    else:
+        is_true = bool(v)
+    if is_true:
+        stack.append(v)
 
 
 def do_OP_DROP(stack: Any) -> None:
